@@ -91,6 +91,7 @@ pub fn c17_py(file: usize, regions: usize, out: &mut Outcome) {
         chroms: content.iter().map(|(n, items)| EncChrom { name: n.clone(), size: 200, wig: items.chunks(2).map(|c| WigSec::T1(c.to_vec())).collect(), bed: vec![] }).collect(),
         chrom_block: 64,
         chrom_level_order: false,
+            chrom_ids_in_given_order: false,
         fanout: 2,
         placement: Placement::LevelOrder,
         zooms: vec![],
@@ -239,6 +240,7 @@ pub fn c19_py(schema: Option<(String, usize, usize)>, extra: usize, out: &mut Ou
         chroms: vec![EncChrom { name: "chr1".into(), size: 100, wig: vec![], bed: vec![vec![(1, 9, rest.clone()), (5, 20, rest.clone())]] }],
         chrom_block: 64,
         chrom_level_order: false,
+            chrom_ids_in_given_order: false,
         fanout: 4,
         placement: Placement::LevelOrder,
         zooms: vec![],
